@@ -132,6 +132,13 @@ impl TcpStream {
                 k.net.read(ep, buf, now)
             });
             match r {
+                Some(0) => {
+                    if with(|k| k.net.take_reset(ep)) {
+                        with(|k| k.fault("tcp_reset_reported"));
+                        return Err(io::Error::new(ErrorKind::ConnectionReset, "Connection reset by peer"));
+                    }
+                    return Ok(0);
+                }
                 Some(n) => return Ok(n),
                 None => {
                     if self.nonblocking.load(Ordering::Relaxed) {
